@@ -306,6 +306,11 @@ class SymBuilder(BuilderBase):
   def list(self, items):
     return self.st.alloc("list", list, list(items))
 
+  def deque(self, items):
+    """collections.deque, modelled as a list with popleft / appendleft"""
+    import collections
+    return self.st.alloc("list", collections.deque, list(items))
+
   def slist(self, name, attrs, maxlen=None):
     """list of symbolic length whose elements are abstract: only the attribute paths in `attrs`
     (name -> 'int' | 'bool'; a trailing '()' marks a method result) can be read"""
@@ -515,6 +520,10 @@ class ConcBuilder(BuilderBase):
 
   def list(self, items):
     return list(items)
+
+  def deque(self, items):
+    import collections
+    return collections.deque(items)
 
   def slist(self, name, attrs, maxlen=None, make=None):
     """concrete counterpart of SymBuilder.slist: `make(i, attrvals)` builds element i with the given values of
